@@ -741,7 +741,9 @@ func init() {
 				res.EngineError = err.Error()
 				return res
 			}
-			violate := func(key, msg string, rp any) { res.Violate("C10", "c10-out-value:"+key, msg+fmt.Sprintf(" [caps %v]", cp), rp, nil) }
+			violate := func(key, msg string, rp any) {
+				res.Violate("C10", "c10-out-value:"+key, msg+fmt.Sprintf(" [caps %v]", cp), rp, nil)
+			}
 			// attributes
 			for i, in := range c10InfoShapes {
 				rec.mu.Lock()
